@@ -13,6 +13,7 @@ RULE = (
     "to ordinary, ties); layouts 1-D / (B,n) / (B1,B2,n) / (B,b*n), each of which must either agree with per-block evaluation or raise; call histories f(x), f(y), f(x) on one object, "
     "two objects of one configuration interleaved, first call after construction vs later; input tensors checked for modification (_version and values). Distinct = (component, "
     "member set, permutation/layout); non-trivial = batch with >=2 distinct members."
+    " Added after the seeded-fault rounds: large mixed batch vs reverse-order singles on a second object, float64/int64/int32/uint8/complex128 inputs for the input-unmodified and repeat-call clauses, strided / expanded / permuted / transposed views, deep copy and state_dict round trip of the used object, variants of one component kind in one child process."
 )
 ASSUMPTIONS = [
     "per-block reference evaluation is f on a (1, n) tensor (the layout every component documents)",
